@@ -1,6 +1,9 @@
 // h_C16.cpp — harness for C16: the shipped models and initialisers.
 // Case kinds (operands in brackets):
-//   wna        [int dim 1|2|3, mat Tq 1x2, int seed, word script: n<num> | m<k> (mat X<k>) | t<k> (mat P<k>, C<k>)]
+//   wna        [int dim 1|2|3, mat Tq 1x2, int seed, int defseed (1: the constructor without seed, i.e. seed 1),
+//               word script: n<num> | m<k> (mat X<k>) | t<k> (mat P<k>, C<k>)]   (num and column counts may be 0)
+//   wna_stat   [int dim, mat Tq, int seed, int N, mat x dx1]: empirical moments of N noise samples / N motions of x
+//   lin_stat   [int n, word idxs, mat R, int seed, int N]: empirical second moment of N sensor noise samples
 //   lti_state  [mat F, mat Q]            lti_meas [mat H, mat R]
 //   linmodel   [int n, word idxs, mat R, int seed, word nums]
 //   sim        [int dim, mat Tq, int seed, mat x0, int len (0: the constructor must throw), word ops: b | r | o]
@@ -9,7 +12,8 @@
 // The standard-normal draws the library's generators produce are mirrored here
 // (same engine, same distribution object type, same seed, same order) and printed
 // as `draws`; the LDLT factor of a WhiteNoiseAcceleration is private, so it is
-// observed through a twin instance: probeS = getNoiseSample(d) = L * probeZ.
+// observed on the instance under test: its first call is probeS = getNoiseSample(d)
+// = L * probeZ (probeZ the first d*d mirrored draws; `draws` are the ones after them).
 #define VF_MAIN
 #include "common.hpp"
 #include <BayesFilters/InitSurveillanceAreaGrid.h>
@@ -37,7 +41,8 @@ struct Mirror {
     std::mt19937_64 g; std::normal_distribution<double> nd; std::vector<double> all;
     explicit Mirror(unsigned int seed) : g(std::mt19937_64(seed)), nd(0.0, 1.0) {}
     void draw(long k) { for (long i = 0; i < k; i++) all.push_back(nd(g)); }
-    MatrixXd mat() const { MatrixXd m(1, (long)all.size()); for (size_t i = 0; i < all.size(); i++) m(0, i) = all[i]; return m; }
+    size_t from = 0;      // draws before `from` were used by the probe
+    MatrixXd mat() const { MatrixXd m(1, (long)(all.size() - from)); for (size_t i = from; i < all.size(); i++) m(0, i - from) = all[i]; return m; }
 };
 
 static WhiteNoiseAcceleration::Dim dim_of(long k) {
@@ -50,17 +55,28 @@ static void out_shape(const std::string& name, const MatrixXd& M) {
     std::cout << "\n";
 }
 
-// observe the factor used for sampling through a twin instance
-static void probe(long dim, double T, double q, long d) {
-    const unsigned int pseed = 424242u;
-    WhiteNoiseAcceleration twin(dim_of(dim), T, q, pseed), twin2(dim_of(dim), T, q, pseed), other(dim_of(dim), T, q, pseed + 1);
-    Mirror mz(pseed);
+static std::unique_ptr<WhiteNoiseAcceleration> make_wna(long dim, double T, double q, unsigned int seed, bool defseed) {
+    vf::Entry e("WhiteNoiseAcceleration::WhiteNoiseAcceleration");
+    if (defseed) return std::unique_ptr<WhiteNoiseAcceleration>(new WhiteNoiseAcceleration(dim_of(dim), T, q));
+    return std::unique_ptr<WhiteNoiseAcceleration>(new WhiteNoiseAcceleration(dim_of(dim), T, q, seed));
+}
+
+// observe the factor used for sampling on the instance under test (its first d*d draws), and
+// reproducibility on twins: same seed -> bit-equal, other seed -> different
+static void probe(WhiteNoiseAcceleration& wna, Mirror& mir, long dim, double T, double q, unsigned int seed, bool defseed, long d) {
     MatrixXd S, S2, S3;
-    { vf::Entry e("WhiteNoiseAcceleration::getNoiseSample"); S = twin.getNoiseSample(d); S2 = twin2.getNoiseSample(d); S3 = other.getNoiseSample(d); }
+    { vf::Entry e("WhiteNoiseAcceleration::getNoiseSample"); S = wna.getNoiseSample(d); }
+    {
+        std::unique_ptr<WhiteNoiseAcceleration> twin = make_wna(dim, T, q, seed, defseed);
+        std::unique_ptr<WhiteNoiseAcceleration> other = make_wna(dim, T, q, defseed ? 2u : seed + 1u, false);
+        vf::Entry e("WhiteNoiseAcceleration::getNoiseSample");
+        S2 = twin->getNoiseSample(d); S3 = other->getNoiseSample(d);
+    }
     long zr = S.rows() > 0 ? S.rows() : d;
-    mz.draw(zr * d);
+    mir.draw(zr * d);
     MatrixXd Z(zr, d);
-    for (long i = 0; i < zr * d; i++) *(Z.data() + i) = mz.all[i];
+    for (long i = 0; i < zr * d; i++) *(Z.data() + i) = mir.all[i];
+    mir.from = mir.all.size();
     out_shape("probeS", S); out_shape("probeZ", Z);
     vf::out_int("reproducible", vf::bit_equal(S, S2) ? 1 : 0);
     vf::out_int("seed_sensitive", vf::bit_equal(S, S3) ? 0 : 1);
@@ -77,6 +93,7 @@ struct ExposedLTIMeas : public LTIMeasurementModel {
 };
 struct ExposedLinearModel : public LinearModel {
     ExposedLinearModel(const LinearMatrixComponent& lmc, const MatrixXd& R, unsigned int seed) : LinearModel(lmc, R, seed) {}
+    ExposedLinearModel(const LinearMatrixComponent& lmc, const MatrixXd& R) : LinearModel(lmc, R) {}
     bool freeze(const Data&) override { return true; }
     std::pair<bool, Data> measure(const Data&) const override { return std::make_pair(false, Data()); }
     MatrixXd sqrtR() const { return sqrt_R_; }
@@ -85,6 +102,8 @@ struct ExposedLinearModel : public LinearModel {
 struct ExposedSensor : public SimulatedLinearSensor {
     ExposedSensor(std::unique_ptr<SimulatedStateModel> s, const LinearMatrixComponent& lmc, const MatrixXd& R, unsigned int seed)
         : SimulatedLinearSensor(std::move(s), lmc, R, seed) {}
+    ExposedSensor(std::unique_ptr<SimulatedStateModel> s, const LinearMatrixComponent& lmc, const MatrixXd& R)
+        : SimulatedLinearSensor(std::move(s), lmc, R) {}
     MatrixXd sqrtR() const { return sqrt_R_; }
 };
 
@@ -109,9 +128,11 @@ static std::vector<std::size_t> indices(const std::vector<std::string>& w) {
 
 static void run_wna(const vf::Case& c) {
     const long dim = c.integer("dim"); const double T = c.mat("Tq")(0, 0), q = c.mat("Tq")(0, 1);
-    const unsigned int seed = (unsigned int)c.integer("seed");
+    const bool defseed = c.has_int("defseed") && c.integer("defseed") != 0;
+    const unsigned int seed = defseed ? 1u : (unsigned int)c.integer("seed");
     const long d = 2 * dim;
-    WhiteNoiseAcceleration wna(dim_of(dim), T, q, seed);
+    std::unique_ptr<WhiteNoiseAcceleration> wnap = make_wna(dim, T, q, seed, defseed);
+    WhiteNoiseAcceleration& wna = *wnap;
     Mirror mir(seed);
     MatrixXd F, Q; long ssize;
     { vf::Entry e("WhiteNoiseAcceleration::getStateTransitionMatrix"); F = wna.getStateTransitionMatrix(); }
@@ -119,7 +140,7 @@ static void run_wna(const vf::Case& c) {
     { vf::Entry e("WhiteNoiseAcceleration::getStateDescription"); ssize = (long)wna.getStateDescription().total_size(); }
     vf::out_mat("F", F); vf::out_mat("Q", Q); vf::out_int("state_size", ssize);
     vf::out_int("set_property", wna.setProperty("reset") ? 1 : 0);
-    probe(dim, T, q, d);
+    probe(wna, mir, dim, T, q, seed, defseed, d);
     long k = 0;
     for (const std::string& op : c.word("script")) {
         const std::string name = "r" + std::to_string(k);
@@ -182,11 +203,23 @@ static void index_error(const std::string& what) {
 
 static void run_linmodel(const vf::Case& c) {
     const long n = c.integer("n"); const MatrixXd& R = c.mat("R");
-    const unsigned int seed = (unsigned int)c.integer("seed");
+    const bool defseed = c.has_int("defseed") && c.integer("defseed") != 0;
+    const unsigned int seed = defseed ? 1u : (unsigned int)c.integer("seed");
     LinearModel::LinearMatrixComponent lmc{(std::size_t)n, indices(c.word("idxs"))};
     try {
         std::unique_ptr<ExposedLinearModel> m;
-        { vf::Entry e("LinearModel::LinearModel"); m.reset(new ExposedLinearModel(lmc, R, seed)); }
+        {
+            vf::Entry e("LinearModel::LinearModel");
+            if (defseed) m.reset(new ExposedLinearModel(lmc, R)); else m.reset(new ExposedLinearModel(lmc, R, seed));
+        }
+        {
+            // reproducibility: a twin with the same seed draws the same sample, another seed a different one
+            ExposedLinearModel twin(lmc, R, seed), twin2(lmc, R, seed), other(lmc, R, defseed ? 2u : seed + 1u);
+            vf::Entry e("LinearModel::getNoiseSample");
+            MatrixXd a = twin.noise(3).second, b = twin2.noise(3).second, o = other.noise(3).second;
+            vf::out_int("reproducible", vf::bit_equal(a, b) ? 1 : 0);
+            vf::out_int("seed_sensitive", vf::bit_equal(a, o) ? 0 : 1);
+        }
         vf::out_str("result", "ok");
         out_shape("H", m->getMeasurementMatrix());
         bool ok; MatrixXd R2; std::tie(ok, R2) = m->getNoiseCovarianceMatrix();
@@ -216,13 +249,17 @@ static void out_data(const std::string& name, const Data& dt) {
 
 static void run_sim(const vf::Case& c, bool with_sensor) {
     const long dim = c.integer("dim"); const double T = c.mat("Tq")(0, 0), q = c.mat("Tq")(0, 1);
-    const unsigned int seed = (unsigned int)c.integer("seed");
+    const bool defseed = c.has_int("defseed") && c.integer("defseed") != 0;
+    const unsigned int seed = defseed ? 1u : (unsigned int)c.integer("seed");
     const long d = 2 * dim; const long len = c.integer("len");
     const MatrixXd& x0 = c.mat("x0");
     std::unique_ptr<SimulatedStateModel> sim;
+    Mirror mir(seed);
+    std::unique_ptr<WhiteNoiseAcceleration> wnap = make_wna(dim, T, q, seed, defseed);
+    probe(*wnap, mir, dim, T, q, seed, defseed, d);
     try {
         vf::Entry e("SimulatedStateModel::SimulatedStateModel");
-        std::unique_ptr<StateModel> wna(new WhiteNoiseAcceleration(dim_of(dim), T, q, seed));
+        std::unique_ptr<StateModel> wna(std::move(wnap));
         VectorXd v0 = x0.col(0);
         sim.reset(new SimulatedStateModel(std::move(wna), v0, (unsigned int)len));
     } catch (const std::runtime_error& ex) {
@@ -231,9 +268,8 @@ static void run_sim(const vf::Case& c, bool with_sensor) {
         return;
     }
     vf::out_str("ctor", "ok");
-    Mirror mir(seed); mir.draw(d * (len - 1));
+    mir.draw(d * (len - 1));
     SimulatedStateModel* simp = sim.get();
-    probe(dim, T, q, d);
     vf::out_mat("draws", mir.mat());
     if (!with_sensor) {
         out_data("data_init", simp->getData());
@@ -251,14 +287,23 @@ static void run_sim(const vf::Case& c, bool with_sensor) {
             k++;
         }
     } else {
-        const MatrixXd& R = c.mat("R"); const unsigned int seed2 = (unsigned int)c.integer("seed2");
+        const MatrixXd& R = c.mat("R");
+        const bool defseed2 = c.has_int("defseed2") && c.integer("defseed2") != 0;
+        const unsigned int seed2 = defseed2 ? 1u : (unsigned int)c.integer("seed2");
         LinearModel::LinearMatrixComponent lmc{(std::size_t)d, indices(c.word("idxs"))};
         std::unique_ptr<ExposedSensor> sens;
-        { vf::Entry e("SimulatedLinearSensor::SimulatedLinearSensor"); sens.reset(new ExposedSensor(std::move(sim), lmc, R, seed2)); }
+        {
+            vf::Entry e("SimulatedLinearSensor::SimulatedLinearSensor");
+            if (defseed2) sens.reset(new ExposedSensor(std::move(sim), lmc, R));
+            else sens.reset(new ExposedSensor(std::move(sim), lmc, R, seed2));
+        }
         Mirror mir2(seed2);
         out_shape("H", sens->getMeasurementMatrix()); out_shape("sqrtR", sens->sqrtR());
         vf::out_int("meas_size", (long)sens->getMeasurementDescription().total_size());
+        vf::out_int("meas_lin", (long)sens->getMeasurementDescription().linear_components());
+        vf::out_int("meas_circ", (long)sens->getMeasurementDescription().circular_components());
         vf::out_int("input_size", (long)sens->getInputDescription().total_size());
+        vf::out_int("input_noise", (long)sens->getInputDescription().noise_components());
         {
             bool ok; Data dt; std::tie(ok, dt) = sens->measure();
             MatrixXd mm = any::any_cast<MatrixXd>(dt);
@@ -301,11 +346,64 @@ static void run_grid(const vf::Case& c) {
     vf::out_int("components", (long)ps.components);
 }
 
+// empirical moments: the property "samples have covariance Q / R" observed without the RNG mirror
+static void run_wna_stat(const vf::Case& c) {
+    const long dim = c.integer("dim"); const double T = c.mat("Tq")(0, 0), q = c.mat("Tq")(0, 1);
+    const unsigned int seed = (unsigned int)c.integer("seed");
+    const long N = c.integer("N"); const MatrixXd& x = c.mat("x");
+    std::unique_ptr<WhiteNoiseAcceleration> wna = make_wna(dim, T, q, seed, false);
+    MatrixXd W;
+    { vf::Entry e("WhiteNoiseAcceleration::getNoiseSample"); W = wna->getNoiseSample((std::size_t)N); }
+    vf::out_int("noise_rows", W.rows()); vf::out_int("noise_cols", W.cols());
+    out_shape("noise_mean", W.rowwise().mean());
+    out_shape("noise_second_moment", (W * W.transpose()) / double(N));
+    MatrixXd X = x.col(0).replicate(1, N), Y = MatrixXd::Zero(X.rows(), N);
+    { vf::Entry e("WhiteNoiseAcceleration::motion"); wna->motion(X, Y); }
+    VectorXd mu = Y.rowwise().mean();
+    MatrixXd Yc = Y.colwise() - mu;
+    out_shape("motion_mean", mu);
+    out_shape("motion_cov", (Yc * Yc.transpose()) / double(N));
+}
+
+static void run_lin_stat(const vf::Case& c) {
+    const long n = c.integer("n"); const MatrixXd& R = c.mat("R"); const long N = c.integer("N");
+    LinearModel::LinearMatrixComponent lmc{(std::size_t)n, indices(c.word("idxs"))};
+    ExposedLinearModel m(lmc, R, (unsigned int)c.integer("seed"));
+    MatrixXd W;
+    { vf::Entry e("LinearModel::getNoiseSample"); W = m.noise((int)N).second; }
+    vf::out_int("noise_rows", W.rows()); vf::out_int("noise_cols", W.cols());
+    out_shape("noise_mean", W.rowwise().mean());
+    out_shape("noise_second_moment", (W * W.transpose()) / double(N));
+    out_shape("sqrtR", m.sqrtR());
+    // the same sensor over a simulated trajectory: measure() - H x_k over many freezes
+    const long Ns = N / 4, dim = n / 2;
+    std::unique_ptr<StateModel> wna(new WhiteNoiseAcceleration(dim_of(dim), 1.0, 1.0, (unsigned int)c.integer("seed") + 7u));
+    VectorXd x0 = VectorXd::Zero(n);
+    std::unique_ptr<SimulatedStateModel> sim(new SimulatedStateModel(std::move(wna), x0, (unsigned int)Ns));
+    SimulatedStateModel* simp = sim.get();
+    ExposedSensor sens(std::move(sim), lmc, R, (unsigned int)c.integer("seed") + 11u);
+    MatrixXd Res(W.rows(), Ns); long failures = 0;
+    for (long k = 0; k < Ns; k++) {
+        bool ok;
+        { vf::Entry e("SimulatedLinearSensor::freeze"); ok = sens.freeze(); }
+        if (!ok) { failures++; Res.col(k).setZero(); continue; }
+        MatrixXd y = any::any_cast<MatrixXd>(sens.measure().second);
+        MatrixXd xk = any::any_cast<MatrixXd>(simp->getData());
+        Res.col(k) = y - sens.getMeasurementMatrix() * xk;
+    }
+    bool past; { vf::Entry e("SimulatedLinearSensor::freeze"); past = sens.freeze(); }
+    vf::out_int("resid_count", Ns); vf::out_int("freeze_failures", failures); vf::out_int("freeze_past_end", past ? 1 : 0);
+    out_shape("resid_mean", Res.rowwise().mean());
+    out_shape("resid_second_moment", (Res * Res.transpose()) / double(Ns));
+}
+
 int main() {
     vf::Case c;
     while (vf::read_case(std::cin, c)) {
         vf::out_begin(c.id);
         if (c.kind == "wna") run_wna(c);
+        else if (c.kind == "wna_stat") run_wna_stat(c);
+        else if (c.kind == "lin_stat") run_lin_stat(c);
         else if (c.kind == "lti_state") run_lti_state(c);
         else if (c.kind == "lti_meas") run_lti_meas(c);
         else if (c.kind == "linmodel") run_linmodel(c);
